@@ -2,6 +2,7 @@
 import base64
 import json
 
+from .. import types as T
 from ..spec import EP_OF, KINDS_ENUM, handlers
 from .common import Canon, canon_args, doc_text, draw_args, draw_env, draw_info, draw_world, dumps
 
@@ -74,7 +75,7 @@ def check_prog(ctx, r, prog, n_values, reply_too=False):
                 keys = list(json.loads(d).keys())
             except Exception:
                 keys = []
-            name = evs[0]["handler"].split(".")[2]
+            name = T.wire_name(evs[0]["handler"].split(".")[2])
             if keys != [name]:
                 ctx.violate(f"model:{k1}->{k2}", f"{pn}: {k2} ran {evs[0]['handler']} for a document whose key is {keys}", detail)
         ctx.count("ran_same_named" if evs else "rejected")
